@@ -529,70 +529,172 @@ def translate_classes():
                 status[cls.name] = str(e)
                 out.append("(* %s : UNTRANSLATABLE %s *)" % (cls.name, str(e).replace("*)", "* )")))
     out.append("Definition translated_classes : list string := [%s]." % "; ".join('"%s"' % n for n in names))
+    out.append("Definition all_plans : list (string * list plan_item) :=\n  [%s]." %
+               ";\n   ".join('("%s", plan_%s)' % (n, n) for n in names))
     return "\n".join(out) + "\n", status
 
 
 def translate_block_smooth(cls, path):
-    """BlockSmoothConvexFunction hand-rolls its loops; the formula is extracted, the loop shape checked."""
+    """BlockSmoothConvexFunction hand-rolls its loops: the loop nest is checked statement by statement and
+    emitted as the plan item [BlockPairs <condition-name prefix> <formula>]; the formula is extracted."""
+    import re
     fn = next((b for b in cls.body if isinstance(b, ast.FunctionDef) and b.name == "add_class_constraints"), None)
     if fn is None:
         raise Untranslatable(cls, "no add_class_constraints", path)
-    formula = None
-    shape = []
-    for n in ast.walk(fn):
-        if isinstance(n, ast.Assign) and len(n.targets) == 1 and isinstance(n.targets[0], ast.Name) \
-                and n.targets[0].id == "constraint":
-            env = positional_env(["xi", "gi", "fi"], True)
-            env.update(positional_env(["xj", "gj", "fj"], False))
-            env["gik"] = ("P", "(PVar %d)" % V_GIK)
-            env["gjk"] = ("P", "(PVar %d)" % V_GJK)
-            s, t = Tr(env, path).tr(n.value)
-            if s != "C":
-                raise Untranslatable(n, "not a comparison", path)
-            if formula is not None:
-                raise Untranslatable(n, "several constraints built", path)
-            formula = t
-    # loop shape: for i.. for j.. if point_i == point_j: (table only) else: for k in range(nb_blocks): gik, gjk = get_block(gi,k), get_block(gj,k)
     body = strip_doc(fn.body)
+
     def enum_points(f):
-        return (isinstance(f.iter, ast.Call) and isinstance(f.iter.func, ast.Name) and f.iter.func.id == "enumerate"
+        return (isinstance(f, ast.For) and not f.orelse and isinstance(f.target, ast.Tuple) and len(f.target.elts) == 2
+                and all(isinstance(e, ast.Name) for e in f.target.elts)
+                and isinstance(f.iter, ast.Call) and isinstance(f.iter.func, ast.Name) and f.iter.func.id == "enumerate"
                 and len(f.iter.args) == 1 and is_self_attr(f.iter.args[0], "list_of_points"))
+
+    def point_id_stmts(stmts, xname, idname, ivar):
+        """xi_id = xi.get_name(); if xi_id is None: xi_id = "Point_{}".format(i)"""
+        if len(stmts) != 2:
+            return False
+        a, b = stmts
+        ok1 = (isinstance(a, ast.Assign) and len(a.targets) == 1 and isinstance(a.targets[0], ast.Name)
+               and a.targets[0].id == idname and isinstance(a.value, ast.Call) and isinstance(a.value.func, ast.Attribute)
+               and a.value.func.attr == "get_name" and isinstance(a.value.func.value, ast.Name)
+               and a.value.func.value.id == xname and not a.value.args and not a.value.keywords)
+        ok2 = (isinstance(b, ast.If) and not b.orelse and isinstance(b.test, ast.Compare) and len(b.test.ops) == 1
+               and isinstance(b.test.ops[0], ast.Is) and isinstance(b.test.left, ast.Name) and b.test.left.id == idname
+               and isinstance(b.test.comparators[0], ast.Constant) and b.test.comparators[0].value is None
+               and len(b.body) == 1 and isinstance(b.body[0], ast.Assign) and isinstance(b.body[0].targets[0], ast.Name)
+               and b.body[0].targets[0].id == idname and isinstance(b.body[0].value, ast.Call)
+               and isinstance(b.body[0].value.func, ast.Attribute) and b.body[0].value.func.attr == "format"
+               and isinstance(b.body[0].value.func.value, ast.Constant) and b.body[0].value.func.value.value == "Point_{}"
+               and len(b.body[0].value.args) == 1 and isinstance(b.body[0].value.args[0], ast.Name)
+               and b.body[0].value.args[0].id == ivar)
+        return ok1 and ok2
+
+    def table_append(s, kvar, ivar, what):
+        """tables_of_constraints[k][i].append(<what>)   what: 0 or the name 'constraint'"""
+        if not (isinstance(s, ast.Expr) and isinstance(s.value, ast.Call) and isinstance(s.value.func, ast.Attribute)
+                and s.value.func.attr == "append" and len(s.value.args) == 1 and not s.value.keywords):
+            return False
+        tgt = s.value.func.value
+        if not (isinstance(tgt, ast.Subscript) and isinstance(tgt.slice, ast.Name) and tgt.slice.id == ivar
+                and isinstance(tgt.value, ast.Subscript) and isinstance(tgt.value.slice, ast.Name)
+                and tgt.value.slice.id == kvar and isinstance(tgt.value.value, ast.Name)):
+            return False
+        a = s.value.args[0]
+        if what == 0:
+            return isinstance(a, ast.Constant) and a.value == 0 and not isinstance(a.value, bool)
+        return isinstance(a, ast.Name) and a.id == what
+
+    def range_blocks(f):
+        """for k in range(self.partition.get_nb_blocks())  |  for k in range(nb_blocks)"""
+        if not (isinstance(f, ast.For) and not f.orelse and isinstance(f.target, ast.Name)
+                and isinstance(f.iter, ast.Call) and isinstance(f.iter.func, ast.Name) and f.iter.func.id == "range"
+                and len(f.iter.args) == 1):
+            return False
+        a = f.iter.args[0]
+        if isinstance(a, ast.Name) and a.id == "nb_blocks":
+            return True
+        return (isinstance(a, ast.Call) and isinstance(a.func, ast.Attribute) and a.func.attr == "get_nb_blocks"
+                and is_self_attr(a.func.value, "partition") and not a.args)
+
     fors = [s for s in body if isinstance(s, ast.For) and enum_points(s)]
     if len(fors) != 1:
         raise Untranslatable(fn, "expected exactly one top-level loop enumerating self.list_of_points", path)
     outer = fors[0]
     # every other top-level statement may only build names / tables (no constraint is created outside the loop)
+    key_fmt = None
     for s in body:
         if s is outer:
             continue
         for n in ast.walk(s):
             if isinstance(n, ast.Compare) and not isinstance(n.ops[0], (ast.Is, ast.IsNot, ast.NotEq)):
                 raise Untranslatable(n, "comparison outside the double loop", path)
-            if isinstance(n, ast.Attribute) and n.attr in ("list_of_class_constraints", "list_of_class_psd", "append"):
+            if isinstance(n, ast.Attribute) and n.attr in ("list_of_class_constraints", "list_of_class_psd",
+                                                           "list_of_constraints", "list_of_psd"):
                 raise Untranslatable(n, "constraint list touched outside the double loop", path)
-    inner = [s for s in outer.body if isinstance(s, ast.For)]
-    if len(inner) != 1 or not (isinstance(inner[0].iter, ast.Call) and list_ref(inner[0].iter.args[0], path) == "LPoints"):
-        raise Untranslatable(outer, "inner loop must enumerate self.list_of_points", path)
-    ifs = [s for s in inner[0].body if isinstance(s, ast.If)]
-    cond = [s for s in ifs if isinstance(s.test, ast.Compare) and isinstance(s.test.left, ast.Name)
-            and s.test.left.id == "point_i" and isinstance(s.test.ops[0], ast.Eq)
-            and isinstance(s.test.comparators[0], ast.Name) and s.test.comparators[0].id == "point_j"]
-    if len(cond) != 1 or not cond[0].orelse:
-        raise Untranslatable(inner[0], "expected  if point_i == point_j: ... else: ...", path)
-    kloop = [s for s in cond[0].orelse if isinstance(s, ast.For)]
-    if len(kloop) != 1:
-        raise Untranslatable(cond[0], "expected a loop over blocks in the else branch", path)
+            if isinstance(n, ast.Assign) and len(n.targets) == 1 and isinstance(n.targets[0], ast.Subscript) \
+                    and is_self_attr(n.targets[0].value, "tables_of_constraints"):
+                k = n.targets[0].slice
+                if not (isinstance(k, ast.Call) and isinstance(k.func, ast.Attribute) and k.func.attr == "format"
+                        and isinstance(k.func.value, ast.Constant) and isinstance(k.func.value.value, str)
+                        and len(k.args) == 1 and isinstance(k.args[0], ast.Name) and key_fmt is None):
+                    raise Untranslatable(n, "unsupported table key", path)
+                key_fmt = k.func.value.value
+    iv, pv = [e.id for e in outer.target.elts]
+    if len(outer.body) != 4:
+        raise Untranslatable(outer, "outer loop body: unpack, point id (2 statements), inner loop", path)
+    n1 = unpack3(outer.body[0], pv, path)
+    if not point_id_stmts(outer.body[1:3], n1[0], "xi_id", iv):
+        raise Untranslatable(outer.body[1], "expected xi_id = xi.get_name() / Point_{i}", path)
+    inner = outer.body[3]
+    if not enum_points(inner) or len(inner.body) != 4:
+        raise Untranslatable(inner, "inner loop must enumerate self.list_of_points (unpack, point id, if/else)", path)
+    jv, qv = [e.id for e in inner.target.elts]
+    n2 = unpack3(inner.body[0], qv, path)
+    if not point_id_stmts(inner.body[1:3], n2[0], "xj_id", jv):
+        raise Untranslatable(inner.body[1], "expected xj_id = xj.get_name() / Point_{j}", path)
+    cond = inner.body[3]
+    if not (isinstance(cond, ast.If) and isinstance(cond.test, ast.Compare) and len(cond.test.ops) == 1
+            and isinstance(cond.test.ops[0], ast.Eq) and isinstance(cond.test.left, ast.Name)
+            and cond.test.left.id == pv and isinstance(cond.test.comparators[0], ast.Name)
+            and cond.test.comparators[0].id == qv and cond.orelse):
+        raise Untranslatable(cond, "expected  if point_i == point_j: ... else: ...", path)
+    # then-branch: for k in range(nb): tables[k][i].append(0)
+    if not (len(cond.body) == 1 and range_blocks(cond.body[0]) and len(cond.body[0].body) == 1
+            and table_append(cond.body[0].body[0], cond.body[0].target.id, iv, 0)):
+        raise Untranslatable(cond, "then-branch must only append 0 to the tables", path)
+    if not (len(cond.orelse) == 1 and range_blocks(cond.orelse[0])):
+        raise Untranslatable(cond, "expected a loop over blocks in the else branch", path)
+    kloop = cond.orelse[0]
+    kv = kloop.target.id
+    if len(kloop.body) != 6:
+        raise Untranslatable(kloop, "block loop body: gik, gjk, constraint, set_name, table append, list append", path)
+    s_gik, s_gjk, s_con, s_name, s_tab, s_app = kloop.body
     blocks = {}
-    for s in kloop[0].body:
-        if isinstance(s, ast.Assign) and isinstance(s.value, ast.Call) and isinstance(s.value.func, ast.Attribute) \
-                and s.value.func.attr == "get_block":
-            blocks[s.targets[0].id] = [getattr(a, "id", None) for a in s.value.args]
-    if blocks != {"gik": ["gi", "k"], "gjk": ["gj", "k"]}:
-        raise Untranslatable(kloop[0], "expected gik/gjk = get_block(gi/gj, k)", path)
-    if formula is None:
-        raise Untranslatable(fn, "no constraint", path)
+    for s in (s_gik, s_gjk):
+        if not (isinstance(s, ast.Assign) and len(s.targets) == 1 and isinstance(s.targets[0], ast.Name)
+                and isinstance(s.value, ast.Call) and isinstance(s.value.func, ast.Attribute)
+                and s.value.func.attr == "get_block" and is_self_attr(s.value.func.value, "partition")
+                and not s.value.keywords):
+            raise Untranslatable(s, "expected gik/gjk = self.partition.get_block(gi/gj, k)", path)
+        blocks[s.targets[0].id] = [getattr(a, "id", None) for a in s.value.args]
+    if blocks != {"gik": [n1[1], kv], "gjk": [n2[1], kv]}:
+        raise Untranslatable(kloop, "expected gik/gjk = get_block(gi/gj, k)", path)
+    if not (isinstance(s_con, ast.Assign) and len(s_con.targets) == 1 and isinstance(s_con.targets[0], ast.Name)
+            and s_con.targets[0].id == "constraint"):
+        raise Untranslatable(s_con, "expected constraint = <comparison>", path)
+    env = positional_env(n1, True)
+    env.update(positional_env(n2, False))
+    env["gik"] = ("P", "(PVar %d)" % V_GIK)
+    env["gjk"] = ("P", "(PVar %d)" % V_GJK)
+    sort, formula = Tr(env, path).tr(s_con.value)
+    if sort != "C":
+        raise Untranslatable(s_con, "not a comparison", path)
+    # constraint.set_name("IC_{}_<prefix>{}({}, {})".format(function_id, k, xi_id, xj_id))
+    c = s_name.value if isinstance(s_name, ast.Expr) else None
+    if not (isinstance(c, ast.Call) and isinstance(c.func, ast.Attribute) and c.func.attr == "set_name"
+            and isinstance(c.func.value, ast.Name) and c.func.value.id == "constraint" and len(c.args) == 1
+            and isinstance(c.args[0], ast.Call) and isinstance(c.args[0].func, ast.Attribute)
+            and c.args[0].func.attr == "format" and isinstance(c.args[0].func.value, ast.Constant)
+            and isinstance(c.args[0].func.value.value, str)):
+        raise Untranslatable(s_name, "expected constraint.set_name(<format>.format(...))", path)
+    m = re.match(r"^IC_\{\}_([A-Za-z0-9_]*)\{\}\(\{\}, \{\}\)$", c.args[0].func.value.value)
+    if not m or [getattr(a, "id", None) for a in c.args[0].args] != ["function_id", kv, "xi_id", "xj_id"]:
+        raise Untranslatable(s_name, "name must be IC_{function_id}_<prefix>{k}({xi_id}, {xj_id})", path)
+    prefix = m.group(1)
+    if key_fmt != prefix + "{}":
+        raise Untranslatable(fn, "table key %r does not match the constraint-name prefix %r" % (key_fmt, prefix), path)
+    if not table_append(s_tab, kv, iv, "constraint"):
+        raise Untranslatable(s_tab, "expected tables_of_constraints[k][i].append(constraint)", path)
+    if not (isinstance(s_app, ast.Expr) and isinstance(s_app.value, ast.Call)
+            and isinstance(s_app.value.func, ast.Attribute) and s_app.value.func.attr == "append"
+            and is_self_attr(s_app.value.func.value, "list_of_class_constraints") and len(s_app.value.args) == 1
+            and isinstance(s_app.value.args[0], ast.Name) and s_app.value.args[0].id == "constraint"):
+        raise Untranslatable(s_app, "expected self.list_of_class_constraints.append(constraint)", path)
+    info = ctor_info(cls, path)
     return ["Definition f_BlockSmoothConvexFunction_smoothness_convexity_block : cterm :=\n  %s." % formula,
-            "Definition force_reuse_BlockSmoothConvexFunction : bool := true.", ""]
+            "Definition plan_BlockSmoothConvexFunction : list plan_item :=\n  [BlockPairs \"%s\" f_BlockSmoothConvexFunction_smoothness_convexity_block]." % prefix,
+            "Definition force_reuse_BlockSmoothConvexFunction : bool := %s." % ("true" if info["force_reuse"] else "false"),
+            ""]
 
 
 def write_if_changed(path, text):
